@@ -324,6 +324,18 @@ class FIXNewOrderSingle:
                     FOrdStatus.STOPPED: True,
                     None: FIXError,
                 },
+                # a stopped (guaranteed) order is still working: it gets filled,
+                #  cancelled or expires like an acknowledged one
+                FOrdStatus.STOPPED: {
+                    FOrdStatus.STOPPED: None,
+                    FOrdStatus.PARTIALLY_FILLED: True,
+                    FOrdStatus.FILLED: True,
+                    FOrdStatus.CANCELED: True,
+                    FOrdStatus.EXPIRED: True,
+                    FOrdStatus.PENDING_CANCEL: True,
+                    FOrdStatus.PENDING_REPLACE: True,
+                    None: FIXError,
+                },
                 FOrdStatus.PENDING_CANCEL: {
                     FOrdStatus.CANCELED: True,
                     FOrdStatus.CREATED: FIXError,
